@@ -43,6 +43,57 @@ fn k_float_nonfinite_null() {
     core::mem::forget(out);
 }
 
+/// C05 U-map-key-char: a `char` map key is handed to the string escaper as its UTF-8 bytes, to be
+/// quoted (so '"', '\\' and controls are escaped like in any other string), and nothing reaches the
+/// writer by another route. The escaper itself (format_string, decided by the U-format harnesses)
+/// is replaced by a recorder.
+static mut FS_CALLS: u8 = 0;
+static mut FS_LEN: usize = 0;
+static mut FS_BYTES: [u8; 4] = [0; 4];
+static mut FS_QUOTE: bool = false;
+fn format_string_rec(value: &str, _dst: &mut [core::mem::MaybeUninit<u8>], need_quote: bool) -> usize {
+    unsafe {
+        FS_CALLS += 1;
+        FS_LEN = value.len();
+        FS_QUOTE = need_quote;
+        let b = value.as_bytes();
+        let mut i = 0;
+        while i < 4 && i < b.len() {
+            FS_BYTES[i] = b[i];
+            i += 1;
+        }
+    }
+    0
+}
+
+#[kani::proof]
+#[kani::unwind(6)]
+#[kani::stub(crate::util::string::format_string, format_string_rec)]
+fn u_map_key_char_goes_through_escaper() {
+    let c: char = kani::any();
+    let mut out: Vec<u8> = Vec::with_capacity(64);
+    {
+        let mut ser = Serializer::new(&mut out);
+        let r = MapKeySerializer { ser: &mut ser }.serialize_char(c);
+        assert!(r.is_ok());
+        core::mem::forget(r);
+    }
+    let mut buf = [0u8; 4];
+    let n = c.encode_utf8(&mut buf).len();
+    unsafe {
+        assert!(FS_CALLS == 1 && FS_QUOTE && FS_LEN == n);
+        let mut i = 0;
+        while i < 4 {
+            assert!(i >= n || FS_BYTES[i] == buf[i]);
+            i += 1;
+        }
+    }
+    assert!(out.len() == 0);
+    kani::cover!(c == '"');
+    kani::cover!(n == 4);
+    core::mem::forget(out);
+}
+
 /// A fixed small shape with symbolic leaves: [b0, [b1], [], {"k": b2, "": null}, {}]
 struct Shape {
     b: [bool; 3],
